@@ -707,6 +707,15 @@ def simplify_constrained_range(source: str) -> str:
         else:
             step = None
 
+        # Narrowing is only sound for constant bounds (they are replaced by constants below)
+        # and unit step (otherwise the new start must stay aligned with the old one).
+        try:
+            start, stop, step = (core.literal_value(arg) for arg in args)
+        except ValueError:
+            continue
+        if not all(type(value) is int for value in (start, stop, step)) or step != 1:
+            continue
+
         target_name = comp.target.id
 
         conditions = set()
